@@ -160,6 +160,12 @@ def run(prop: str, tier_: str) -> int:
                 da.add_fixture('bbb', directory='vtt', title='stored without tfdt', only={'bbb_v7', 'bbb_a1'},
                                extra=[(REPO / 'tests' / 'fixtures' / 'webvtt.mp4', 'vtt_t2')])
                 reps = reps + [('vtt', 'vtt_t2', 'mp4', 0)]
+                # a video track with one stored segment (690 KB) larger than the segment reader's whole cache (30 x 16 KiB)
+                from harness.synth import enlarge_segment
+                bigf = d / 'big_v7.mp4'
+                bigf.write_bytes(enlarge_segment((REPO / 'tests' / 'fixtures' / 'bbb' / 'bbb_v7.mp4').read_bytes(), 2, 600000))
+                da.add_fixture('bbb', directory='big', title='large segment', only={'bbb_a1'}, extra=[(bigf, 'big_v7')])
+                reps = reps + [('big', 'big_v7', 'm4v', 0)]
             if prop == 'C03':
                 extras = ['', '&events=ping&ping__interval=100&ping__timescale=100', '&events=ping,scte35&ping__interval=150&ping__count=0',
                           '&events=scte35&scte35__interval=300', '&bugs=saio', '&bugs=saio&events=ping&ping__interval=90',
@@ -172,7 +178,7 @@ def run(prop: str, tier_: str) -> int:
                         for x in (extras if tier_ == 'thorough' else rng.sample(extras, 3)):
                             q = (qv + x).lstrip('&')
                             urls = []
-                            n = rng.randrange(1, len(sf.segments) + 1)
+                            n = rng.randrange(1, len(sf.segments) + 1) if stream != 'big' else 2
                             urls.append((f'/dash/vod/{stream}/{rid}/{n}.{ext}', 'vod-number'))
                             t = sf.segments[n - 1].tfdt
                             urls.append((f'/dash/vod/{stream}/{rid}/time/{t}.{ext}', 'vod-time'))
